@@ -2882,8 +2882,6 @@ bool BW_MidiSequencer::parseSMF(FileAndMemReader &fr)
 
     rawTrackData.clear();
     rawTrackData.resize(TrackCount, std::vector<uint8_t>());
-    m_invDeltaTicks = fraction<uint64_t>(1, 1000000l * static_cast<uint64_t>(deltaTicks));
-    m_tempo         = fraction<uint64_t>(1,            static_cast<uint64_t>(deltaTicks) * 2);
 
     size_t totalGotten = 0;
 
@@ -2926,6 +2924,10 @@ bool BW_MidiSequencer::parseSMF(FileAndMemReader &fr)
         m_errorString = fr.fileName() + ": Empty track data";
         return false;
     }
+
+    // The time base of the new song: set only now, a file refused above leaves the song that stays loaded as it was
+    m_invDeltaTicks = fraction<uint64_t>(1, 1000000l * static_cast<uint64_t>(deltaTicks));
+    m_tempo         = fraction<uint64_t>(1,            static_cast<uint64_t>(deltaTicks) * 2);
 
     // Build new MIDI events table
     if(!buildSmfTrackData(rawTrackData))
